@@ -819,6 +819,7 @@ pub(crate) fn find_text_regex_select_expressions<'a, 'b>(
         foundexpressions
     } else {
         match expressions.len() {
+            0 => vec![],
             1 => vec![0],
             2 => vec![0, 1],
             _ => unreachable!("Expected 1 or 2 expressions"),
